@@ -218,6 +218,7 @@ Boolean RetrieveCodeFromChunkList(
 
                 memcpy(pData, pChunk->pCode + (OverlapStart - pChunk->Start), PartLength);
                 pData += PartLength;
+                Start += PartLength;
                 Count -= PartLength;
                 Found = True;
                 break;
